@@ -9,6 +9,15 @@ SO_MODS = ['contracts.so_tick', 'contracts.so_msg', 'contracts.so_apply', 'contr
 ALL_MODULES = SO_MODS + ['contracts.so_wrapper', 'contracts.journal_units', 'contracts.tcp_units', 'contracts.ser_units', 'contracts.tr_units',
                          'contracts.bat_lock', 'contracts.bat_containers', 'contracts.node_units', 'contracts.so_version', 'contracts.poller_units']
 
+# Dependency cones between the properties: every clause that counts for a property on the right also counts for the property on the left, because
+# the left property quantifies over all schedules and is broken, in some schedule, whenever the right one is:
+#   C01 (same command sequence everywhere)  <- election safety (C03), commit safety (C04), membership safety (C10)
+#   C04 (committed = majority-backed, final) <- election safety (C03), membership safety (C10)
+#   C06 (journaled restart forgets nothing)  <- the file journal is the list and is kill-safe (C08)
+#   C11 (arguments arrive intact, nothing raises while sending / receiving) <- framing (C13)
+DEPENDS = {'C01': ['C03', 'C04', 'C10'], 'C04': ['C03', 'C10'], 'C06': ['C08'], 'C11': ['C13']}
+
+
 A_RAFT = ('A-RAFT: the local rules proved here (R1-R11 of DESIGN §3.3) imply the cluster-wide statement by the published Raft '
           'argument (log matching, leader completeness, state-machine safety); that composition over several nodes and '
           'schedules is assumed, not proved')
